@@ -52,6 +52,34 @@ func runC03(c *Ctx, w *World, r *Report) {
 	fns, ok := requireFuncs(w, r, names...)
 	ReportScale(w, r, names[:5]...)
 	ReportMul32(w, r, names[:5]...)
+	// R-ARGWIDTH: both callers hand shiftMulti the level mask (31 significant bits: heights up to 30) - PathToIndex as
+	// its first, PathToIndexLoose as its second argument
+	r.Rule("R-ARGWIDTH", "shiftMulti does not mask or truncate either of its first two parameters to fewer than 31 bits: depending on the caller each of them is the level mask bitmapSize, whose top bit (bit 30 for a tree of height 30) selects the leaves")
+	if sm := findFunc(w, "bmtree.shiftMulti"); sm != nil && len(sm.Params) >= 2 {
+		badW := ""
+		isArg := func(v ssa.Value) bool {
+			v = stripConv(v)
+			return v == ssa.Value(sm.Params[0]) || v == ssa.Value(sm.Params[1])
+		}
+		eachInstr(sm, func(ins ssa.Instruction) {
+			switch x := ins.(type) {
+			case *ssa.BinOp:
+				if x.Op != token.AND {
+					return
+				}
+				for _, pr := range [2][2]ssa.Value{{x.X, x.Y}, {x.Y, x.X}} {
+					if k, ok := constUint64(stripConv(pr[1])); ok && isArg(pr[0]) && k&0x7fffffff != 0x7fffffff {
+						badW = fmt.Sprintf("a parameter is masked with %#x at %s: bits of a level mask of height up to 30 are dropped", k, w.InstrPos(ins))
+					}
+				}
+			case *ssa.Convert:
+				if isArg(x.X) && intWidth(x.Type()) < 32 && isIntType(x.Type()) {
+					badW = "a parameter is truncated to " + x.Type().String() + " at " + w.InstrPos(ins)
+				}
+			}
+		})
+		r.Check(badW == "", "R-ARGWIDTH", "bmtree.shiftMulti", w.Pos(sm.Pos()), badW, "neither of the first two parameters is narrowed below 31 bits")
+	}
 	if !ok {
 		return
 	}
@@ -271,6 +299,40 @@ func runC03(c *Ctx, w *World, r *Report) {
 			}
 		})
 		r.Check(badP == "", "R-CONTRACT-RANGE", "bmtree.pathCheck|width", w.Pos(pc.Pos()), badP, "width mask covers only bits 30,31 of each half")
+		// the two halves of one path word may be EQUAL (the right-most node of a level: every searching bit under the
+		// mask is 1): a contract that orders them strictly rejects that node
+		badH := ""
+		isHigh := func(v ssa.Value) bool {
+			x, c, ok := asShiftRight(stripConv(v))
+			return ok && c == 32 && stripConv(x) == ssa.Value(pc.Params[0])
+		}
+		eachInstr(pc, func(ins ssa.Instruction) {
+			call, ok := ins.(*ssa.Call)
+			if !ok {
+				return
+			}
+			if name, isMust := isMustCall(call); !isMust || name != "True" {
+				return
+			}
+			for _, a := range call.Common().Args {
+				if mi, isMI := a.(*ssa.MakeInterface); isMI {
+					a = mi.X
+				}
+				bo, ok := stripConv(a).(*ssa.BinOp)
+				if !ok || (bo.Op != token.LSS && bo.Op != token.GTR) {
+					continue
+				}
+				hi, lo := bo.X, bo.Y
+				if bo.Op == token.GTR {
+					hi, lo = bo.Y, bo.X
+				}
+				// hi < lo with hi the searching bits and lo the mask
+				if isHigh(hi) && isLow32(lo, pc.Params[0]) {
+					badH = "the contract at " + w.InstrPos(call) + " requires searching bits < mask: for the right-most node of a level the two halves are equal, a valid path is rejected"
+				}
+			}
+		})
+		r.Check(badH == "", "R-CONTRACT-RANGE", "bmtree.pathCheck|halves", w.Pos(pc.Pos()), badH, "no contract orders the searching bits strictly below the mask")
 	}
 	reportContractRangeGeneral(w, r, hl)
 	// ---- R-NARROWSHL: a value explicitly narrowed to <= 32 bits must not be shifted left by a variable amount
